@@ -410,6 +410,8 @@ func main() {
 
 	pendingReadHandovers(r, rnd)
 	handover(r)
-	handoverRace(r)
+	if r.ViolationCount() == 0 {
+		handoverRace(r) // (a tree that already violates is not also run under the race detector)
+	}
 	r.Finish()
 }
